@@ -5,4 +5,5 @@ CONSTANTS
   TextReps <- WrapText
   MaxText = 8
   IndexMode = "uchar"
+  ReadMode = "forward"
 INVARIANTS NoShiftUB
